@@ -27,6 +27,18 @@ import c01_gen  # noqa: E402  query generator (shared with C17)
 UNPROVED_PLAN_RULES = set()
 # rules the translator is known not to be able to state (an aggregate-level rule, vector index scans)
 KNOWN_UNTRANSLATABLE = {"avg", "vector-index-scan-1", "vector-index-scan-2", "vector-index-scan-3"}
+# theorems that are not the statement of a rule as it is, but say how far a refuted rule is sound,
+# why a repaired rule needs its guard, or that a removed rule was not an equivalence: audited by
+# name (a deleted or weakened-by-renaming theorem is an undischarged obligation)
+EXTRA_THEOREMS = [
+    "psound_pushdown_filter_limit_partial", "pushdown_filter_limit_not_equivalence", "pushdown_filter_topn_not_equivalence",
+    "pushdown_join_condition_left_needs_type_guard", "pushdown_join_condition_right_needs_type_guard",
+    "psound_pushdown_join_condition_left_partial", "psound_pushdown_join_condition_right_partial",
+    "psound_in_to_exists_partial", "psound_left_outer_apply_to_inner_apply_partial",
+    "psound_pushdown_apply_scalar_agg_partial", "psound_pushdown_apply_group_agg_partial",
+    "pushdown_apply_scalar_agg_merges_equal_left_rows",
+    "lift_extends", "dfilter_extends", "dproj_extends", "dagg_extends",
+]
 RULES_JSON = os.path.join(vlib.LEAN, "RlModel/Gen/rules.json")
 DOM = {"N": ["null", "n:0", "n:1", "n:-1", "n:2", "n:3", "n:-2"],
        "B": ["null", "b:true", "b:false"],
@@ -193,6 +205,7 @@ def run(ck):
     other_rules = [r for r in rules if r["kind"] in ("plan-other", "expr-other")]
     for r in plan_rules:
         cand += ["C01.psound_" + r["id"], "C01.punsound_" + r["id"]]
+    cand += ["C01." + n for n in EXTRA_THEOREMS]
     status = {}
     errs_all = {}
     for mod, extra in (("RlModel.Thm.C01", ["drv_c01"]), ("RlModel.Thm.C01Plan", []), ("RlModel.Thm.C01PlanPerm", []), ("RlModel.Thm.C01Apply", [])):
@@ -235,6 +248,13 @@ def run(ck):
             obligations[name] = {"status": st.get("status", "missing") if st.get("status") != "ok" else "forbidden",
                                  "axioms": [], "detail": st.get("detail", [])[:2]}
             pbroken.append(r)
+    for n in EXTRA_THEOREMS:
+        st = status.get("C01." + n, {"status": "missing"})
+        ok_ = st.get("status") == "ok" and not forb
+        obligations["thm:" + n] = dict(st, by=n) if ok_ else {"status": st.get("status", "missing") if st.get("status") != "ok" else "forbidden", "axioms": [], "detail": st.get("detail", [])[:2]}
+        if not ok_:
+            ck.report("obligation:" + n, "theorem %s (a partial-soundness / guard-necessity / regression statement) no longer checks" % n,
+                      replay={"theorem": n, "status": obligations["thm:" + n]}, found_input=False)
     ck.add_obligations(obligations)
     ck.coverage["unproved"] = {
         "not_translatable (avg, vector index rules; covered by the differential run only)": [r["name"] for r in other_rules],
